@@ -6,7 +6,9 @@ class STLParserErrorListener( ErrorListener ):
         raise RTAMTException (str(line) + ":" + str(column) + ": Syntax ERROR, " + str(msg))
 
     def reportAmbiguity(self, recognizer, dfa, startIndex, stopIndex, exact, ambigAlts, configs):
-        raise RTAMTException("Ambiguity ERROR, " + str(configs))
+        # a diagnostic of the prediction algorithm, not a syntax error: ANTLR resolves it by the order of the
+        # alternatives, which is the precedence order of the grammar ("x > y - 1" used to be rejected here)
+        pass
 
     def reportAttemptingFullContext(self, recognizer, dfa, startIndex, stopIndex, conflictingAlts, configs):
         pass
